@@ -138,6 +138,8 @@ static void verif_notify_cb(uint32_t event, char *key, void *old_value, void *va
 	r->newv[e] = value;
 }
 
+qb_map_notify_fn verif_notify_cb_keep = verif_notify_cb;   /* address taken: restrict_fp target */
+
 static void verif_not_reset(void)
 {
 	static const struct verif_not_rec zero;
